@@ -234,10 +234,10 @@ def mutants(rng, toks, glue, full):
             merged.append(t)
     toks = merged
 
-    def join(ts, gl):
+    def join(ts, _=None):
         return ' '.join(ts)
 
-    base = join(toks, ())
+    base = join(toks)
     yield 'valid', base
     n = len(toks)
     for i in range(n):
@@ -426,6 +426,10 @@ def check_positions(text, nodes):
     return out
 
 
+def N_simple(rng):
+    return G.gen_statement(rng, rng.choice(['break', 'continue', 'return', 'assign']), None, depth=0, nest=0)[0]
+
+
 def _positions_case(ctx, body, style_multiline):
     rng = ctx.rng
     p = G.print_program(body, rng, 'random')
@@ -446,7 +450,7 @@ def _positions_case(ctx, body, style_multiline):
 
 
 @item('positions', stands_in_for=_STANDS_POS, shards=4, weight=2,
-      bound='every statement production alone (38 x 24 quick / x 300 thorough) and random programs of 1-5 statements, '
+      bound='every statement production alone or followed by one short statement (38 x 24 quick / x 300 thorough) and random programs of 1-5 statements, '
             'blocks nested <= 2, expression depth <= 3 (3 000 quick / 60 000 thorough), random layout with tabs, CR LF, '
             'line breaks inside expressions, // and /* */ comments; a third of the single statements and 15 % of the '
             'programs may contain a token spanning lines (end<newline>if, ticked phrase with a line break); '
@@ -466,7 +470,9 @@ def positions(ctx):
                 complete = False
                 break
             stmt = G.gen_statement(rng, kind, None, depth=(rnd // 3) % 3, nest=0 if rnd < 9 else 1, multiline=ml)[0]
-            _positions_case(ctx, G.Body([stmt]), ml)
+            # every other round a short statement follows, so that positions after the production are seen as well
+            tail = [N_simple(rng)] if rnd % 2 else []
+            _positions_case(ctx, G.Body([stmt] + tail), ml)
     for _ in range((3000 if ctx.quick else 60000) // ctx.nshards):
         if ctx.expired():
             complete = False
